@@ -16,13 +16,6 @@ ReqAuthsAll == AuthKinds \ {"keyOtherSrv", "keyOtherCli", "keyOtherIA"}
 RespMutsAll == {"pass", "strip", "macFlip", "covHdr", "covPath", "covPld", "tsFlip", "rsvFlip", "uncovFlip",
                 "spiFlip", "algoFlip"}
 
-\* extension chains: every path with the plain chain, the other chains with two paths
-PlainOf(ps) == {<<x, "e2e">> : x \in ps}
-PathExtsAll   == PlainOf(PathsAll) \cup ({EmptyPath, P2} \X (Exts \ {"e2e"}))
-PathExtsSmall == PlainOf(PathsSmall) \cup ({EmptyPath} \X (Exts \ {"e2e"}))
-PathExtsK     == PlainOf({EmptyPath})
-RespExtsAll   == {"e2e", "hbh"}
-RespExts1     == {"e2e"}
 CIAs1   == {"iaC"}
 CHosts1 == {"C"}
 \* ---- key regime "drkey": sequences of authenticated requests to one listener
@@ -56,6 +49,13 @@ PEP == [kind |-> "epic", ci |-> 1, ch |-> 2, segs |-> <<Seg(FALSE, 51, <<1, 2>>)
 PathsStd   == {EmptyPath, P1, P1s, P2, P2m, P3, P3a}
 PathsAll   == PathsStd \cup {POH, PEP}
 PathsSmall == {EmptyPath, P2, P3a, POH, PEP}
+\* extension chains: every path with the plain chain, the other chains with two paths
+PlainOf(ps) == {<<x, "e2e">> : x \in ps}
+PathExtsAll   == PlainOf(PathsAll) \cup ({EmptyPath, P2} \X (Exts \ {"e2e"}))
+PathExtsSmall == PlainOf(PathsSmall) \cup ({EmptyPath} \X (Exts \ {"e2e"}))
+PathExtsK     == PlainOf({EmptyPath})
+RespExtsAll   == {"e2e", "hbh"}
+RespExts1     == {"e2e"}
 
 \* reversing twice is the identity, and reversal keeps the authenticated part's
 \* content (as a multiset of hops per segment) -- sanity of the path model
